@@ -24,7 +24,9 @@ COMMAND_TEXTS = ["EM,1,1", "SM,10,0,0", "SP,1,100", "TP", "CS", "SC,4,12000", "P
                  "ST,abc", "HM,1000", "XM,100,5,-5", "R", "CU,1,0", " EM,0,0 ", "SR,1000\r", "T3,1,0,0,0,0,0,0"]
 QUERY_TEXTS = ["QL,3", "QS", "QE", "QC", "QG", "QT", "PI,B,2", "QB", "QP", "QM", " QS ", "QL,0\r", "V"]
 
-NICK = st.text(alphabet="abcdefghijklmnopqrstuvwxyzABCDEFGHIJKLMNOPQRSTUVWXYZ0123456789 _-.", max_size=16)
+NICK = st.one_of(st.text(alphabet="abcdefghijklmnopqrstuvwxyzABCDEFGHIJKLMNOPQRSTUVWXYZ0123456789 _-.", max_size=16),
+                 st.text(alphabet="abAB01 %{}$()[]*+#@!", max_size=16),
+                 st.sampled_from(["100% ink", "half 50%", "%s", "{0}", "Errol", "Errata 2", "ERR", "err", "Err"]))
 
 # name -> (argument strategy as tuple strategy, fixed sample args, documented failure value, kind)
 METHODS = {
